@@ -995,6 +995,61 @@ impl<const V: usize> Exec<V> {
                     cnt!(self, "write_old_to_young");
                 }
             }
+            Op::MsFill { m, size } => {
+                let m = self.pick_m(*m);
+                if self.case.plan != "MarkSweep" {
+                    return;
+                }
+                use mmtk::verif::marksweep as ms;
+                let size = (HEADER_BYTES + ((*size as usize) & !7)).min(ms::MAX_BIN_SIZE);
+                let bin = ms::mi_bin::<ShadowVM<V>>(size, 8);
+                let cell = ms::bin_sizes()[bin];
+                let expect = ms::BLOCK_BYTES / cell;
+                let mut addrs: Vec<usize> = vec![];
+                let mut block = 0usize;
+                for _ in 0..expect + 2 {
+                    let a = mm::alloc(self.mutator(m), size, 8, 0, AllocationSemantics::Default);
+                    self.after_possible_gc();
+                    if a.is_zero() {
+                        break;
+                    }
+                    if !self.check_alloc_result(m, a, size, 8, 0, AllocationSemantics::Default) {
+                        return;
+                    }
+                    let id = self.init_object(m, a, size, 0, KIND_PLAIN, AllocationSemantics::Default, 8, 0, 0);
+                    let o = self.objs.remove(&id).unwrap();
+                    self.addr2id.remove(&o.addr);
+                    let au = a.as_usize();
+                    let b = au & !(ms::BLOCK_BYTES - 1);
+                    if addrs.is_empty() {
+                        block = b;
+                    }
+                    if b != block {
+                        break;
+                    }
+                    addrs.push(au);
+                }
+                if self.gcs_seen > 0 {
+                    return; // not a fresh block any more
+                }
+                if addrs.len() != expect {
+                    self.violate("C35", "fresh-block-cell-count", format!("size {} (bin {}, cell {}): a fresh {}-byte block yielded {} cells, expected floor(block/cell) = {}", size, bin, cell, ms::BLOCK_BYTES, addrs.len(), expect));
+                    return;
+                }
+                let mut sorted = addrs.clone();
+                sorted.sort();
+                for w in sorted.windows(2) {
+                    if w[1] - w[0] < cell || (w[1] - w[0]) % cell != 0 {
+                        self.violate("C35", "fresh-block-cell-spacing", format!("size {} (cell {}): cells at {:#x} and {:#x} are not cell-size apart", size, cell, w[0], w[1]));
+                        return;
+                    }
+                }
+                if sorted[0] < block || sorted[sorted.len() - 1] + cell > block + ms::BLOCK_BYTES {
+                    self.violate("C35", "fresh-block-cell-outside", format!("size {} (cell {}): cells [{:#x}..{:#x}+cell) leave the block {:#x}", size, cell, sorted[0], sorted[sorted.len() - 1], block));
+                    return;
+                }
+                cnt!(self, "msfill_checked");
+            }
             Op::FanIn { m, target, holder, n } => {
                 let m = self.pick_m(*m);
                 let t = Self::root_idx(*target);
